@@ -22,12 +22,6 @@ CONTRACT(PRE___leapp(y), POST___leapp(RV, y));
 static inline unsigned int __md_get_yday(unsigned int year, unsigned int mon, unsigned int dom)
 CONTRACT(PRE___md_get_yday(year, mon, dom), POST___md_get_yday(RV, year, mon, dom));
 
-#define PRE___get_mdays(y, m) (1)
-#define POST___get_mdays(ret, y, m) \
-	(((m) >= 1 && (m) <= 12) ? (ret) == (unsigned)S_MDAYS(y, m) : (ret) == 0)
-unsigned int __get_mdays(unsigned int y, unsigned int m)
-CONTRACT(PRE___get_mdays(y, m), POST___get_mdays(RV, y, m));
-
 #define PRE___get_ydays(y) (1)
 #define POST___get_ydays(ret, y) ((ret) == (unsigned)S_YDAYS(y))
 static inline unsigned int __get_ydays(unsigned int y)
@@ -229,11 +223,6 @@ CONTRACT(PRE___ywd_get_jan01_wday(d), POST___ywd_get_jan01_wday(RV, d));
 #define POST___ywd_get_jan01_hang(ret, j01) ((ret) >= -3 && (ret) <= 3 && (1 - (int)(j01) - (ret)) % 7 == 0)
 static int __ywd_get_jan01_hang(dt_dow_t j01)
 CONTRACT(PRE___ywd_get_jan01_hang(j01), POST___ywd_get_jan01_hang(RV, j01));
-
-#define PRE___get_isowk(y) ((y) >= 1601 && (y) <= 4096)
-#define POST___get_isowk(ret, y) ((int)(ret) == S_ISOWEEKS((int)(y)))
-unsigned int __get_isowk(unsigned int y)
-CONTRACT(PRE___get_isowk(y), POST___get_isowk(RV, y));
 
 /* week number of Dec 31, weeks hanging over into the next year counted as 53 */
 #define PRE___get_z31wk(y) ((y) >= 1601 && (y) <= 4095)
